@@ -78,6 +78,28 @@ demo file as a full `crates/...` path. Some test targets only compile when sever
 three good ones, deliver fewer."""
 
 
+ROUND6 = """
+
+ADDITIONAL INSTRUCTIONS FOR THIS ROUND: other volunteers have already delivered about fifteen changes for this property (you cannot see their patches).
+One-line descriptions of what they did, so that you do NOT repeat them:
+{done}
+Find changes that are DIFFERENT from all of the above in mechanism. Directions that are still under-used: (i) a change in a crate or module none of the
+descriptions above mentions, which this property nevertheless depends on (shared helper types, `Changeable*`, `Flag`/ticket plumbing, priority queues,
+path normalisation helpers, the CLI layer that turns flags into library configuration, `Default` impls and constants); (ii) a value computed correctly but
+then used at the wrong site (two variables of the same type swapped, a clone taken before a mutation, a shadowed binding); (iii) a condition that is right
+for the common case and wrong only at a boundary (zero, empty, equal, root directory `/`, a path without parent, first/last element, duplicate entries,
+non-UTF-8 or relative paths); (iv) an early `return` / `?` / `continue` / `break` added for a rare case that skips a later obligation (a flag raise, a cleanup,
+a push, a send); (v) iterator adaptor swaps that differ only on unusual input (`any`/`all`, `find`/`rfind`, `take_while`/`filter`, `zip` truncation, `chain`
+order, `min`/`max`, `first`/`last`, `extend` vs replace, `retain` polarity for a rare class); (vi) integer / duration arithmetic (saturating vs checked vs
+wrapping, `as` casts, ms vs s units) that only matters for extreme inputs. Stay in code that is actually compiled on Linux. You have about 35 minutes of
+wall-clock time in total: deliver TWO good changes (three if quick), fewer rather than weak ones, and stop. Your worktree already has a warm `target/`
+directory, so builds are incremental. Number your deliverables {pid}-16, {pid}-17, {pid}-18 (directories /tmp/seeded/{pid}-16 etc.). Never use `git stash`.
+Never run two cargo commands at once. In each demo/README.md put the exact run command on its own line starting with `cargo test` and the destination path of each
+demo file as a full `crates/...` path. Some test targets only compile when several packages are selected together because of feature unification
+(e.g. `cargo test -p ignore-files -p watchexec-filterer-ignore -p watchexec-filterer-globset --offline`, `cargo test -p watchexec-events --offline
+--features serde`, `cargo test -p project-origins -p ignore-files --offline`); check what compiles on the unchanged HEAD first."""
+
+
 def done(pid):
     import glob
     import os
@@ -119,4 +141,6 @@ if __name__ == "__main__":
         out += txt
     if len(sys.argv) > 2 and sys.argv[2] == "5":
         out += ROUND5.format(pid=sys.argv[1], done=done(sys.argv[1]))
+    if len(sys.argv) > 2 and sys.argv[2] == "6":
+        out += ROUND6.format(pid=sys.argv[1], done=done(sys.argv[1]))
     print(out)
